@@ -625,28 +625,39 @@ func checkAssemblyLoop(a *procAnchors, S ssa.Value) (ssa.Value, string) {
 		if !ok {
 			return nil, "Signature.Index is not a conversion of the loop index: " + facts.Term(vals["Index"])
 		}
-		I, ok := cv.X.(*ssa.BinOp)
-		if !ok || I.Op != token.ADD {
-			return nil, "Signature.Index is not the range index: " + facts.Term(cv.X)
-		}
-		iphi, ok := I.X.(*ssa.Phi)
-		one, isOne := constInt(I.Y)
-		if !ok || !isOne || one != 1 || iphi.Block() != hdr.Block() {
-			return nil, "Signature.Index is not the range index of the assembling loop: " + facts.Term(cv.X)
-		}
-		for _, e := range iphi.Edges {
-			if e == I {
-				continue
-			}
-			if k, ok := constInt(e); !ok || k != -1 {
-				return nil, "range index does not start at 0 / is not incremented by one per iteration"
-			}
-		}
-		// loop bound: I < len(G.Keys)
+		var I ssa.Value
 		var keys ssa.Value
-		if iff, ok := hdr.Block().Instrs[len(hdr.Block().Instrs)-1].(*ssa.If); ok {
-			if bo, ok := iff.Cond.(*ssa.BinOp); ok && bo.Op == token.LSS && bo.X == I {
-				keys = lenOf(bo.Y)
+		if bound, isCounted := facts.CountedLoopIndex(cv.X); isCounted {
+			// `for i := 0; i < len(gs.Keys); i++` — the index phi itself
+			if cv.X.(*ssa.Phi).Block() != hdr.Block() {
+				return nil, "Signature.Index is not the index of the assembling loop: " + facts.Term(cv.X)
+			}
+			I = cv.X
+			keys = lenOf(bound)
+		} else {
+			IB, ok := cv.X.(*ssa.BinOp)
+			if !ok || IB.Op != token.ADD {
+				return nil, "Signature.Index is not the range index: " + facts.Term(cv.X)
+			}
+			iphi, ok := IB.X.(*ssa.Phi)
+			one, isOne := constInt(IB.Y)
+			if !ok || !isOne || one != 1 || iphi.Block() != hdr.Block() {
+				return nil, "Signature.Index is not the range index of the assembling loop: " + facts.Term(cv.X)
+			}
+			for _, e := range iphi.Edges {
+				if e == ssa.Value(IB) {
+					continue
+				}
+				if k, ok := constInt(e); !ok || k != -1 {
+					return nil, "range index does not start at 0 / is not incremented by one per iteration"
+				}
+			}
+			I = IB
+			// loop bound: I < len(G.Keys)
+			if iff, ok := hdr.Block().Instrs[len(hdr.Block().Instrs)-1].(*ssa.If); ok {
+				if bo, ok := iff.Cond.(*ssa.BinOp); ok && bo.Op == token.LSS && bo.X == I {
+					keys = lenOf(bo.Y)
+				}
 			}
 		}
 		kb, kf := fieldLoad(keys)
